@@ -9,6 +9,7 @@ import SaModel.Props.C03Read
 import SaModel.Lemmas.C06Readable
 import SaModel.Lemmas.C06Typed
 import SaModel.Lemmas.C06SafeT
+import SaModel.Lemmas.C06Phys
 /-
 C06 — a schema traced from samples accepts those same samples: the chain closed end to end.
 
@@ -16,21 +17,26 @@ C06 — a schema traced from samples accepts those same samples: the chain close
                         mapped by `Spec.interp` at the field of EVERY tracer reachable from there, unless it is excluded
   fromSamples_interp    the same for a traced collection: every sample of the collection, at the traced root field
   fromSamples_interpRow … in the form the builder theorems use (`Spec.interpRow` against the traced schema)
-  C06_closure_build_partial  trace ⇒ build: `runRows` (every `push` of `to_marrow`) accepts the whole collection
-                        (`Props.C01.runRows_complete`), what remains of `to_marrow` is `build_arrays`
+  to_schema_typed       every traced schema is well typed (`typedFs`), `total` and keyed by UInt32
+  C06_closure_build     trace ⇒ build: `to_marrow` with the traced schema SUCCEEDS on the whole collection
+                        (`Props.C01.toMarrow_complete`, all schema hypotheses discharged but `safeSchema`)
   C06_closure_decode    whenever `to_marrow` returns arrays, they decode (Arrow reading rules) column by column to
                         `interpRow` of the samples (`Props.C01.C01_build_decode`)
   C06_closure_readback  … and `deserialize_any` on the arrays returns those logical values — NO reader-side hypothesis
                         (`Props.C03.toMarrow_readAny`: the built arrays satisfy the reader preconditions of C02); for tracing
                         options without dictionary-encoded strings.  `C06_closure_readback_partial`: all options, with the size
-                        precondition `Read.physical` of the dictionary columns still a hypothesis
+                        precondition `Read.physical` of the dictionary columns as a hypothesis (derived by
+                        `C06_closure_physical` under the capacity bound)
+  C06_closure           the composition, options without dictionary encoding: hypotheses on the input only
+  C06_closure_dict      the composition for every option: + `safeSchema` (C01's `Safe`, decidable on the traced schema)
 
 Exclusions, each an explicit decidable predicate on (data type of the traced field, sample) — `Lemmas/C06Excl.lean`:
 the three DOCUMENTED ones `nullAtEnum`, `dateLookalike`, `u64AboveI64`; the known finding `dataLessNewtype`; lifted to
 nested samples by `hits` (some position the mapping visits).  (The finding of this proof, `unitStructAtValue`, is repaired —
 repo fix ae2fc46, `unitStruct_accepted` / `unitStruct_pinned` — and no longer an exclusion.)  On the builder
-side: `total` (C01's schema-level condition; its traced instance, finding `C06-unseen-first-variant-default`, is repaired —
-repo fix 837fa53, `Props.C01.default_first_real`), C01's `Safe` (dictionaries below nullable structs), capacity.  `excl_*_needed`: each exclusion is needed (a traced collection whose
+side: C01's `Safe` as the decidable schema predicate `safeSchema` (a theorem without dictionary-encoding options; can fail with
+them, `safeSchema_can_fail`) and the capacity bound `Σ vsize ≤ 2^31 - 1`.  `total` and `typedFs` are theorems (`to_schema_typed`;
+the traced instance of `total`, finding `C06-unseen-first-variant-default`, is repaired — repo fix 837fa53).  `excl_*_needed`: each exclusion is needed (a traced collection whose
 sample the mapping refuses exactly there).
 Repaired code (`Code.fixed`), options without overwrites (an overwrite replaces a traced field by an arbitrary one).
 -/
@@ -244,8 +250,9 @@ hypotheses: they are derived for the built arrays (`Props.C03.toMarrow_readAny_p
 chrono parsers return values in range; a theorem for the codec models, `Props.C03.codecExt_ok`) and `hval` (`SValOK`: f32 /
 f64 / integer calls carry values of their width; implied by `SVal.typed`).
 PARTIAL — what remains: `hphys`, the size precondition `Read.physical` (the value count of a dictionary column fits `i64`):
-not derived when strings are dictionary encoded (`string_dictionary_encoding`, `enums_without_data_as_strings`); see
-`C06_closure_readback` for the other options and `Props.C03.wf_not_physical` for why `Spec.WF` alone cannot give it. -/
+not derived HERE (this theorem has no size hypothesis on the samples, and `Spec.WF` alone cannot give it:
+`Props.C03.wf_not_physical`).  It is derived by `C06_closure_physical` when the samples are not excluded and sum to less than
+`2^31 - 1` — see `C06_closure_dict` — and for options without dictionary encoding (`C06_closure_readback`). -/
 theorem C06_closure_readback_partial (o : Options) (ext : Ext) (h0 : o.overwrites = []) (xs : List SVal)
     (fields : List Field) (arrs : List Arr) (h : fromSamples .fixed o xs = .ok fields)
     (hok : ∀ x ∈ xs, SampleOK o x)
@@ -326,22 +333,64 @@ theorem C06_closure (o : Options) (ext : Ext) (h0 : o.overwrites = []) (xs : Lis
   exact ⟨arrs, hm, (C06_closure_decode o ext h0 xs fields arrs h hok hsafe hm).1,
     C06_closure_readback o ext h0 xs fields arrs h hd he hok hext hval hm⟩
 
-/-- **`C06_closure_dict_partial`** — the same for EVERY option, dictionary-encoded strings included.  PARTIAL, two hypotheses
-that are not on the input remain:
-  `hsafe`  `safeSchema fields` (decidable, on the traced schema; can fail: `safeSchema_can_fail`) — C01's exclusion;
-  `hphys`  `Read.physical` of the arrays: the value count of a Dictionary column fits `i64`.  `Spec.WF` alone cannot give it
-           (`Props.C03.wf_not_physical`).  It WOULD follow from the builder invariant (`WFB`: the index of a dictionary has
-           no duplicates, its values are the index entries) by counting — `N` distinct strings occupy at least `2N − 258`
-           bytes and the value offsets end at ≤ `i64::MAX` — but that argument (pigeonhole over byte strings of length ≤ 1,
-           injectivity of UTF-8 encoding, the sum of the value lengths through `finish`) is not carried out. -/
-theorem C06_closure_dict_partial (o : Options) (ext : Ext) (h0 : o.overwrites = []) (xs : List SVal) (fields : List Field)
+/-- **`C06_closure_physical`**: the size precondition `Read.physical` of the reader (the value count of every Dictionary
+column fits `i64`) holds for the arrays `to_marrow` builds from a traced schema — for EVERY option, dictionary-encoded strings
+included — when the samples sum to LESS than the fresh head room `2^31 - 1`.  No counting of distinct strings: the builders'
+own capacity accounting bounds the value count.  `room` is at most the number of free keys of every dictionary
+(`2^32 - index.length` for the UInt32 keys the tracer emits), completeness of `push` gives `room root0 ≤ room root + Σ vsize`
+(`Props.C01.foldl_push_complete`), `room root0 = 2^31 - 1` (`fromSamples_room`); so `1 ≤ room root`, every dictionary of the
+final state holds fewer than `2^32` values (`Lemmas.C06.physB_of_room`), and `into_array` keeps that
+(`Lemmas.C06.finish_physical`).  (`Props.C03.wf_not_physical`: `Spec.WF` of the arrays alone could not give it.) -/
+theorem C06_closure_physical (o : Options) (ext : Ext) (h0 : o.overwrites = []) (xs : List SVal) (fields : List Field)
+    (arrs : List Arr) (h : fromSamples .fixed o xs = .ok fields)
+    (hok : ∀ x ∈ xs, SampleOK o x) (hex : ∀ x ∈ xs, excludedRow ext fields x = false)
+    (hsafe : safeSchema fields = true)
+    (hcap : (xs.map (vsize ext)).sum < 2147483647)
+    (hm : toMarrow ext fields xs = .ok arrs) : ∀ a ∈ arrs, Read.physical a = true := by
+  obtain ⟨t, n, children, md, ht, hs, _, _⟩ := fromSamples_root h
+  have hside := to_schema_side_of_WF o h0 t (fromSamples_inv ht).wf fields hs
+  obtain ⟨root0, hnew⟩ := newRoot_traced o h0 t (fromSamples_inv ht) fields hs
+  obtain ⟨_, htot, _⟩ := to_schema_typed o h0 h
+  have hsafe0 : Safe root0 := (fromSamples_safe_iff o h0 h hnew).mpr hsafe
+  have hroom0 := fromSamples_room o h0 h hnew
+  obtain ⟨root, hfold, hroom⟩ := Props.C01.foldl_push_complete ext (.struct (Fields.ofList fields)) false [] xs root0
+    (newRoot_fresh hnew).1 hsafe0 (newRoot_shape hside.2 hnew) (by simp [total, htot])
+    (fun r hr => ⟨sampleOK_noRaw _ r (hok r hr), fromSamples_interpRow o ext h0 h r hr (hok r hr) (hex r hr)⟩)
+    (by rw [hroom0]; omega)
+  have hrun : runRows ext fields xs = .ok root := by simp only [runRows, hnew]; exact hfold
+  have hw := (Props.C01.runRows_rows ext fields xs root0 root hnew hsafe0 hrun).1
+  have hb := Lemmas.C03.runRows_builtFor ext fields xs root (Build.push_takeRest ext) hrun
+  have hp := physB_of_room root _ false hb
+    (by simpa [physKeysDT] using to_schema_physKeys o h0 t (fromSamples_inv ht).wf fields hs) (by omega)
+  rw [Props.C03.toMarrow_eq, hrun] at hm
+  simp only [bind, Except.bind] at hm
+  cases hba : buildArrays ext root with
+  | error e => rw [hba] at hm; cases hm
+  | ok pr =>
+    obtain ⟨arrs', rest⟩ := pr
+    rw [hba] at hm
+    simp only [pure, Except.pure, Except.ok.injEq] at hm
+    subst hm
+    exact buildArrays_physical ext root rest arrs' hba hw hp
+
+/-- **`C06_closure_dict`** — the closure for EVERY option, dictionary-encoded strings (`string_dictionary_encoding`,
+`enums_without_data_as_strings`) included: whenever `from_samples` succeeds on the collection, `to_marrow` with the traced
+schema accepts it, the documented mapping of sample `i` is the struct of the `i`-th column entries, and `deserialize_any`
+reproduces every entry.  No hypothesis on the builder or the arrays (`Read.physical` is derived: `C06_closure_physical`).
+Compared with `C06_closure`:
+  `hsafe`  `safeSchema fields` — C01's exclusion, a decidable predicate on the traced schema (exactly `Safe` of the fresh
+           builder, `fromSamples_safe_iff`).  It can fail (`safeSchema_can_fail`: a non-nullable dictionary-encoded string
+           inside an `Option<struct>`).  Those collections are OUTSIDE this theorem although `to_marrow` accepts them: C01's
+           append-only statement R1 is false there builder by builder (`Props.C01.dict_placeholder_unstable`); a limit of the
+           proof, not of the crate;
+  `hcap`   strict: the sizes sum to less than `2^31 - 1`. -/
+theorem C06_closure_dict (o : Options) (ext : Ext) (h0 : o.overwrites = []) (xs : List SVal) (fields : List Field)
     (h : fromSamples .fixed o xs = .ok fields)
     (hok : ∀ x ∈ xs, SampleOK o x) (hex : ∀ x ∈ xs, excludedRow ext fields x = false)
     (hsafe : safeSchema fields = true)
-    (hcap : (xs.map (vsize ext)).sum ≤ 2147483647)
+    (hcap : (xs.map (vsize ext)).sum < 2147483647)
     (hext : Lemmas.C03.ExtOK ext)
-    (hval : ∀ x ∈ xs, Lemmas.C03.SValOK x)
-    (hphys : ∀ arrs, toMarrow ext fields xs = .ok arrs → ∀ a ∈ arrs, Read.physical a = true) :
+    (hval : ∀ x ∈ xs, Lemmas.C03.SValOK x) :
     ∃ arrs, toMarrow ext fields xs = .ok arrs ∧ arrs.length = fields.length ∧
       ∃ cols : List (String × List LVal), cols.length = arrs.length ∧
         (∀ (i : Nat) (hi : i < xs.length),
@@ -349,11 +398,12 @@ theorem C06_closure_dict_partial (o : Options) (ext : Ext) (h0 : o.overwrites = 
         ∀ (j : Nat) (hj : j < arrs.length) (i : Nat), i < xs.length →
           ∃ lv, (cols[j]?.map (·.2[i]?)) = some (some lv) ∧
             Read.readAny Read.Fixes.all arrs[j] i = .ok (Read.toD arrs[j] lv) := by
-  obtain ⟨arrs, hm⟩ := C06_closure_build o ext h0 xs fields h hok hex hsafe hcap
+  obtain ⟨arrs, hm⟩ := C06_closure_build o ext h0 xs fields h hok hex hsafe (by omega)
   have hsafe' : ∀ root0, newRoot fields = .ok root0 → Safe root0 :=
     fun root0 hnew => (fromSamples_safe_iff o h0 h hnew).mpr hsafe
   exact ⟨arrs, hm, (C06_closure_decode o ext h0 xs fields arrs h hok hsafe' hm).1,
-    C06_closure_readback_partial o ext h0 xs fields arrs h hok hsafe' hext hval hm (hphys arrs hm)⟩
+    C06_closure_readback_partial o ext h0 xs fields arrs h hok hsafe' hext hval hm
+      (C06_closure_physical o ext h0 xs fields arrs h hok hex hsafe hcap hm)⟩
 
 /-! ### non-vacuity and necessity of the exclusions (kernel evaluation) -/
 
@@ -503,6 +553,33 @@ example : ∃ arrs, toMarrow {} wReadFields wRead = .ok arrs ∧ arrs.length = w
   · decide +kernel
   · constructor <;> (intros; rename_i h; cases h)
   · simp [wRead, recOf, i32, SFields.ofList, Lemmas.C03.SValOK, Lemmas.C03.SFieldsOK, Lemmas.C03.ScalarOK,
+      IntTy.inRange, IntTy.min, IntTy.max]
+
+/-! ### non-vacuity of the closure with dictionary-encoded strings -/
+
+def wDict : List SVal := [recOf [("s", .str "a"), ("n", i32 1)], recOf [("s", .str "é"), ("n", .none)], recOf [("s", .str "a"), ("n", i32 3)]]
+def wDictFields : List Field := [.mk "s" (.dictionary .uint32 .largeUtf8) false [], .mk "n" .int32 true []]
+
+set_option maxRecDepth 1000000 in
+theorem wDict_trace : fromSamples .fixed { string_dictionary_encoding := true } wDict = .ok wDictFields := by decide +kernel
+
+/-- non-vacuity of `C06_closure_dict` (and of `C06_closure_physical` inside it): a repeated and a two-byte string, dictionary
+encoded; every hypothesis is discharged — `to_marrow` accepts the collection and `deserialize_any` on the Dictionary column
+returns the strings of the samples -/
+example : ∃ arrs, toMarrow {} wDictFields wDict = .ok arrs ∧ arrs.length = wDictFields.length ∧
+    ∃ cols : List (String × List LVal), cols.length = arrs.length ∧
+      (∀ (i : Nat) (hi : i < wDict.length),
+        interpRow {} wDictFields wDict[i] = .ok (.struct (LFields.ofList (cols.map fun c => (c.1, c.2.getD i .null))))) ∧
+      ∀ (j : Nat) (hj : j < arrs.length) (i : Nat), i < wDict.length →
+        ∃ lv, (cols[j]?.map (·.2[i]?)) = some (some lv) ∧
+          Read.readAny Read.Fixes.all arrs[j] i = .ok (Read.toD arrs[j] lv) := by
+  refine C06_closure_dict { string_dictionary_encoding := true } {} rfl wDict wDictFields wDict_trace ?_ ?_ ?_ ?_ ?_ ?_
+  · decide
+  · decide +kernel
+  · decide
+  · decide +kernel
+  · constructor <;> (intros; rename_i h; cases h)
+  · simp [wDict, recOf, i32, SFields.ofList, Lemmas.C03.SValOK, Lemmas.C03.SFieldsOK, Lemmas.C03.ScalarOK,
       IntTy.inRange, IntTy.min, IntTy.max]
 
 end SaModel.Props.C06
